@@ -275,14 +275,14 @@ def _slice_values(ctx, f, e, at, depth=0, seen=None):
     return out
 
 
-def r6(ctx, R):
+def r6(ctx, R, rule="C05.R6"):
     """Type-spec names are not component names.  `type(t) :: x`, `procedure(p) ::
     b` and a type-bound `procedure :: b` inside `type :: s ... end type` name
     entities of the scope that *contains* the type definition; the members of s
     (own and inherited) form a separate name space."""
     from .scopekind import ScopeKinds
 
-    R.rule("C05.R6", "a name taken from a declaration's type-spec is looked up starting outside the enclosing derived type, never among that type's members", floor=1, confirmed=2)
+    R.rule(rule, "a name taken from a declaration's type-spec is looked up starting outside the enclosing derived type, never among that type's members", floor=1, confirmed=2)
     lf = lookup_func(ctx)
     obj = ctx.m.cname.get("FortranObj")
     cone = set(ctx.m.cone(obj)) if obj else set()
@@ -301,24 +301,41 @@ def r6(ctx, R):
             st = ctx.m.enclosing_stmt(c)
             vals = _slice_values(ctx, f, c.args[1], st)
             spec = any(isinstance(v, ast.Call) and isinstance(v.func, ast.Name) and v.func.id == "get_paren_substring" for e in vals for v in ast.walk(e))
-            if not spec:
+            # `TYPE(name)` / `REAL(kind)`: the parenthesised word of the declaration pattern is a type name or a kind name
+            kind_or_type = not spec and any(isinstance(v, ast.Attribute) and v.attr == "DEF_KIND" for e in vals for v in ast.walk(e))
+            if not spec and not kind_or_type:
                 continue
             if SK is None:
                 SK = ScopeKinds(f.node, want=lambda call: id(call) in ids)
             rec = [r_ for r_ in SK.calls if r_[0] is c]
             if not rec:
-                R.undecided("C05.R6", f.short, key(f, st)[:100], loc(f, c), "call not reached by the scope-kind walk")
+                R.undecided(rule, f.short, key(f, st)[:100], loc(f, c), "call not reached by the scope-kind walk")
                 continue
             n += 1
             _, kinds, env = rec[0]
             sp = env.canon(access_path(c.args[0]) or "?")
             roots = {access_path(v) or "" for v in _slice_values(ctx, f, c.args[0], st)}
             if not sp.startswith("self.parent") and not any(r_.startswith("self.parent") for r_ in roots):
-                R.undecided("C05.R6", f.short, key(f, st)[:100], loc(f, c), f"search starts at `{sp}`, not at the entity's own parent chain")
+                R.undecided(rule, f.short, key(f, st)[:100], loc(f, c), f"search starts at `{sp}`, not at the entity's own parent chain")
+            elif kinds[0] != "N" and kind_or_type:
+                # a kind name may be a parameter of the enclosing parameterised type, a type name never is a component:
+                # the step to the type's host has to exist, under the class test, for the type-name case
+                sv = c.args[0].id if isinstance(c.args[0], ast.Name) else None
+                hop = None
+                for iff in (x for x in ctx.m.walk_own(f.node) if isinstance(x, ast.If) and x.lineno < c.lineno):
+                    if "CLASS_TYPE_ID" not in unparse(iff.test):
+                        continue
+                    for s2 in iff.body:
+                        if isinstance(s2, ast.Assign) and len(s2.targets) == 1 and isinstance(s2.targets[0], ast.Name) and s2.targets[0].id == sv and isinstance(s2.value, ast.Attribute) and s2.value.attr == "parent":
+                            hop = iff
+                if hop is not None:
+                    R.ok(rule, f.short, key(f, st)[:100], loc(f, c), f"type names are looked up from the host of the enclosing derived type (step under `{unparse(hop.test)[:70]}`)")
+                else:
+                    R.violation(rule, f.short, key(f, st)[:100], loc(f, c), f"`{unparse(c.args[1])}` is the parenthesised word of the declaration (for TYPE(..)/CLASS(..) a type name) and the search starts at `{unparse(c.args[0])}`, which may be the enclosing derived type, with no step to its host for the type-name case: `type(vec) :: vec` inside a derived type finds the component instead of the type, so a type that is defined elsewhere but not imported goes unreported for every component of that type")
             elif kinds[0] == "N":
-                R.ok("C05.R6", f.short, key(f, st)[:100], loc(f, c), f"`{unparse(c.args[0])}` is not a derived-type definition here (class test / hop to its parent on every path)")
+                R.ok(rule, f.short, key(f, st)[:100], loc(f, c), f"`{unparse(c.args[0])}` is not a derived-type definition here (class test / hop to its parent on every path)")
             else:
-                R.violation("C05.R6", f.short, key(f, st)[:100], loc(f, c), f"`{unparse(c.args[1])}` comes from the declaration's type-spec, and the search starts at `{unparse(c.args[0])}`, which may be the enclosing derived type: for a component or binding the name is then looked up among the type's own and inherited members first, so `type(vec) :: vec`, a binding named like its procedure, or a component named like the type of a sibling resolves to the member instead of the entity in the host scope")
+                R.violation(rule, f.short, key(f, st)[:100], loc(f, c), f"`{unparse(c.args[1])}` comes from the declaration's type-spec, and the search starts at `{unparse(c.args[0])}`, which may be the enclosing derived type: for a component or binding the name is then looked up among the type's own and inherited members first, so `type(vec) :: vec`, a binding named like its procedure, or a component named like the type of a sibling resolves to the member instead of the entity in the host scope")
     if n == 0:
         raise AnalysisError("C05.R6: no look-up of a type-spec name from an entity's parent found")
 
